@@ -6,6 +6,7 @@ scheduling point (accept, recv, sendall, close, select, Event.wait, Thread start
 dongle.exchange) the scheduler picks who runs next: the running thread if still enabled
 (default), another enabled thread, or a client action (connect / send a fragment).
 Switching away from an enabled thread is a preemption (a non-free choice)."""
+import _pyio
 import io
 import threading as real_threading
 
@@ -102,6 +103,15 @@ class Sched:
     def _maybe_done(self):
         if not any(t.alive for t in self.threads if t.started):
             self.done.set()
+
+    def timeout_fires(self, label):
+        """a wait with a timeout: that the time runs out before the awaited event is one more
+        thing the environment may do (a deviation from the default 'the event comes first')"""
+        if self.abort:
+            raise SchedAbort()
+        if self.free_running or self.ctx is None:
+            return False
+        return self.ctx.choose(2, "timeout:%s" % label) == 1
 
     # -- scheduling -----------------------------------------------------------
     def yield_point(self, label):
@@ -203,8 +213,71 @@ class FakeEvent:
         return self.flag
 
     def wait(self, timeout=None):
+        if timeout is not None and not self.flag and self.s.timeout_fires("Event.wait"):
+            return False
         self.s.block_until(lambda: self.flag, "Event.wait")
         return True
+
+
+class FakeLock:
+    """a lock the scheduler knows about: waiting for it is a blocking point, so that a thread
+    that sleeps on a lock held by a descheduled thread does not hang the exploration"""
+
+    def __init__(self, sched, reentrant=False):
+        self.s = sched
+        self.owner = None
+        self.depth = 0
+        self.reentrant = reentrant
+
+    def acquire(self, blocking=True, timeout=-1):
+        s = self.s
+        me = s.current if not s.free_running or s.current is not None else None
+        if self.reentrant and self.owner is me and self.depth:
+            self.depth += 1
+            return True
+        if self.depth:
+            if not blocking:
+                return False
+            if timeout is not None and timeout >= 0 and s.timeout_fires("Lock.acquire"):
+                return False
+            s.block_until(lambda: self.depth == 0, "Lock.acquire")
+            me = s.current
+        self.owner = me
+        self.depth = 1
+        return True
+
+    def release(self):
+        if not self.depth:
+            raise RuntimeError("release unlocked lock")
+        self.depth -= 1
+        if not self.depth:
+            self.owner = None
+
+    def locked(self):
+        return bool(self.depth)
+
+    def __enter__(self):
+        self.acquire()
+        return self
+
+    def __exit__(self, *a):
+        self.release()
+        return False
+
+
+class SchedBufferedReader(_pyio.BufferedReader):
+    """io.BufferedReader holds an internal lock over the blocking read and over close();
+    the C implementation's lock is invisible to the scheduler (a second thread closing the
+    file while a descheduled thread sits in recv would hang the run), so the pure-Python
+    reader is used with a lock the scheduler owns"""
+
+    def __init__(self, raw, sched, buffer_size=io.DEFAULT_BUFFER_SIZE):
+        _pyio.BufferedReader.__init__(self, raw, buffer_size)
+        self._read_lock = FakeLock(sched)
+
+    def close(self):
+        with self._read_lock:
+            _pyio.BufferedReader.close(self)
 
 
 class FakeThreadingModule:
@@ -234,6 +307,8 @@ class FakeThreadingModule:
 
             def join(self, timeout=None):
                 rec = self._rec
+                if timeout is not None and rec.alive and s.timeout_fires("Thread.join"):
+                    return
                 s.block_until(lambda: not rec.alive, "Thread.join")
 
             def is_alive(self):
@@ -248,8 +323,8 @@ class FakeThreadingModule:
                 self._target = None
         self.Timer = Timer
         self.Event = lambda: FakeEvent(s)
-        self.Lock = real_threading.Lock
-        self.RLock = real_threading.RLock
+        self.Lock = lambda: FakeLock(s)
+        self.RLock = lambda: FakeLock(s, reentrant=True)
         self.current_thread = real_threading.current_thread
 
 
@@ -269,7 +344,7 @@ class Conn:
     def makefile(self, mode="r", buffering=-1, **k):
         raw = _Raw(self)
         if "r" in mode:
-            return io.BufferedReader(raw) if buffering != 0 else raw
+            return SchedBufferedReader(raw, self.net.sched) if buffering != 0 else raw
         return raw
 
     def sendall(self, data):
